@@ -3,6 +3,10 @@
 
 (P) spec/QValue.tla GroupBy / GroupPartition (names = distinct textual key values in order of first appearance; items = the
     objects, in input order, minus the key; the partition property is checked by TLC on every generated array).
+(I) spec/QGroupImpl.tla + QGroupImplDefs.tla: the walk of Value::GroupBy over the slot representation (dead slots count as
+    positions; the name variable lives outside the record loop); TLC builds every array of <= 2 (thorough 3) records over 196 slot
+    layouts and checks it against (P); three seeded / earlier variants are rejected.  The oracle also demands that the engine's
+    result is the transcription's result on the logged slot layout of every event (model drift otherwise).
 (B) code -> spec (E5): Value::GroupBy on every 1- and 2-object array over (group value x key position x value kind
     string/u64/bool/null/i64 x with-a-removed-member) and on random arrays of 1..5 objects; each (input, result, source unchanged)
     event is evaluated by TLC against GroupBy.  <loop group=...> is bound by the template checks.
@@ -15,6 +19,14 @@ import vf
 def main():
     c = vf.Check("C18")
     (asan,) = c.build("h_value.asan")
+    # (I) the walk of Value::GroupBy over the slot representation against the specification, and the seeded / earlier variants rejected
+    r = c.tlc("QGroupImpl", "QGroupImpl_current3" if c.thorough else "QGroupImpl_current", timeout=3000, xmx="16g")
+    c.expect_holds(r, "QGroupImpl: the walk over the slots returns the specification's groups for every array of the universe")
+    c.stage("model", distinct_states=r.distinct)
+    for cfg in ("QGroupImpl_skip-dead-uncounted", "QGroupImpl_prefix-newest", "QGroupImpl_key-first"):
+        r = c.tlc("QGroupImpl", cfg, timeout=900, workers=4)
+        if not r.violated:
+            raise vf.MachineryError("%s: the seeded / earlier behaviour is not rejected" % cfg)
     p = os.path.join(c.out, "group.ndjson")
     rc, out, err = c.run([asan, "group", str(c.seed), "100000" if c.thorough else "1500", p], timeout=1500)
     if c.harness_ok("group", rc, out, err):
